@@ -180,9 +180,11 @@ def TS.totalOp (s : TS) : TS × Obs :=
   let s := s.mergePending
   (s, s.total)
 
-/-- Common prefix of `Latest` / `LatestBuckets`: advance to `now`, merge pending. -/
+/-- Common prefix of `Latest` / `LatestBuckets`: advance to `now`, merge pending, then keep
+`pendingTime` in step with the (possibly advanced) finest level. -/
 def TS.catchUp (s : TS) (now : Int) : TS :=
-  (if s.end0 < now then s.advance now else s).mergePending
+  let s1 := (if s.end0 < now then s.advance now else s).mergePending
+  { s1 with pendingTime := s1.end0 }
 
 /-- Walk `num` buckets backwards (circularly) from `index`. -/
 def walkBack (n : Nat) (buckets : List (Option Obs)) : Nat → Nat → List (Option Obs)
